@@ -502,6 +502,28 @@ func (r *TransRun) exec(st TStep) {
 			}
 		}
 		time.Sleep(time.Millisecond) // idle pooled connections: let their readers see the end of the stream
+	case "Drop":
+		// one connection ends while its server stays up (st.K = connection number in dial order)
+		r.mu2.Lock()
+		var w *Wire
+		for c, id := range r.connID {
+			if id == st.K {
+				w = r.connWire[c]
+			}
+		}
+		r.mu2.Unlock()
+		if w == nil {
+			return
+		}
+		r.add(&Ev{Ev: "env.drop", S: st.K, Seq: -1, Sent: -1})
+		w.Cut(0, 0)
+		for k, c := range r.callers {
+			if c.running && r.lastConnOf(k) == st.K && r.countReg(k, c.cur) {
+				k := k
+				r.await("failure of the call in flight on the dropped connection", func() bool { return r.finished(k) })
+			}
+		}
+		time.Sleep(time.Millisecond)
 	case "Restart":
 		r.mu2.Lock()
 		r.servers[st.Addr].up = true
@@ -571,7 +593,7 @@ func (r *TransRun) trace() []*Ev {
 	for i, e := range evs {
 		switch e.Ev {
 		case "t.get", "t.idle.deq", "t.dial", "t.dead", "t.tick", "t.tick.end", "t.idle.close", "t.closeidle.active", "t.closeidle.idle", "t.idle.spare", "api.reg",
-			"t.close", "t.close.conn", "t.closed", "api.call", "api.ret", "api.closeidle", "api.closeidle.end", "env.kill", "env.restart", "obs.closing", "obs.end", "obs.dupexec":
+			"t.close", "t.close.conn", "t.closed", "api.call", "api.ret", "api.closeidle", "api.closeidle.end", "env.kill", "env.restart", "env.drop", "obs.closing", "obs.end", "obs.dupexec":
 			out = append(out, e)
 		case "t.retire":
 			// look ahead: was it enqueued or closed for lack of room?
